@@ -32,8 +32,11 @@ Proof.
 Qed.
 
 (* ---- corner: a configuration rejected by reb_integrator_whfast_init: synchronize and part1 return at once *)
-Lemma w_rejected_inert : forall c s, w_init_ok c = false -> w_sync c s = s /\ w_part1 c s = s.
-Proof. intros c s h. unfold Model.w_sync, Model.w_part1. rewrite h. split; reflexivity. Qed.
+Lemma w_rejected_inert : forall c s, w_init_ok c = false -> w_sync c s = s /\ w_part1 c s = s /\ w_step c s = s.
+Proof.
+  intros c s h. unfold Model.w_step, Model.w_sync, Model.w_part1, Model.w_part2. rewrite h. cbn.
+  repeat split; try reflexivity. destruct (alloc s); reflexivity.
+Qed.
 
 (* ---- (b) keep_unsynchronized: inserted calls are invisible *)
 Definition Rk (x y : wst) : Prop :=
@@ -153,10 +156,10 @@ Definition after_kernel (c' : wcfg) (s : wst) : wst :=
   let '(p, j) := w_kernel_step N O dt c' (part s) (pjh s) in
   {| part := p; pjh := j; is_sync := false; recalc := recalc s; alloc := alloc s |}.
 
-Lemma part2_eq c' s : alloc s = true -> w_var c' = false ->
+Lemma part2_eq c' s : alloc s = true -> w_var c' = false -> w_init_ok c' = true ->
   w_part2 c' s = if w_safe c' then w_sync c' (after_kernel c' s) else after_kernel c' s.
 Proof.
-  intros a v. unfold Model.w_part2, after_kernel. rewrite a, v. simpl.
+  intros a v ok. unfold Model.w_part2, after_kernel. rewrite a, v, ok. simpl.
   destruct (w_kernel_step N O dt c' (part s) (pjh s)). destruct (w_safe c'); reflexivity.
 Qed.
 
@@ -209,13 +212,13 @@ Proof.
 Qed.
 
 Lemma mid_s_part2_safe j : w_part2 cs (mid_s j) = w_sync cu (after_kernel cu (mid j)).
-Proof. rewrite part2_eq by (reflexivity || exact Hvar). reflexivity. Qed.
+Proof. rewrite part2_eq by (reflexivity || exact Hvar || exact Hok). reflexivity. Qed.
 
 Lemma mid_part2_unsafe keep j : w_part2 (with_mode c false keep) (mid j) = after_kernel cu (mid j).
-Proof. rewrite part2_eq by (reflexivity || exact Hvar). reflexivity. Qed.
+Proof. rewrite part2_eq by (reflexivity || exact Hvar || exact Hok). reflexivity. Qed.
 
 Lemma mid_s_part2_unsafe keep j : w_part2 (with_mode c false keep) (mid_s j) = after_kernel cu (mid j).
-Proof. rewrite part2_eq by (reflexivity || exact Hvar). reflexivity. Qed.
+Proof. rewrite part2_eq by (reflexivity || exact Hvar || exact Hok). reflexivity. Qed.
 
 Lemma Inv_after_kernel j : Inv (after_kernel cu (mid j)).
 Proof. destruct (after_kernel_flags cu (mid j)) as (a & b & d). unfold Inv. rewrite a, b, d. auto. Qed.
